@@ -75,6 +75,12 @@ impl AnalyzedSource {
     }
 
     pub fn update(self, changes: Vec<TextChange>) -> Self {
+        if changes.is_empty() {
+            // Nothing changed, so the analysis is still valid.
+            // Analysing the tree again would add its build and semantic errors a second time,
+            // because only the incremental parser removes the old ones.
+            return self;
+        }
         let mut analysed_source = changes.into_iter().fold(self, |mut acc, change| {
             acc.text.replace_range(change.to_range(), &change.text);
             #[cfg(feature = "verif")]
